@@ -17,7 +17,7 @@ VERIF_TIER="$TIER" engine/target/debug/vp check "$ID" "$TIER"
 code=$?
 # thorough tier of C08 / C13: coverage-guided layer (libFuzzer) on top
 if [ "$code" = 0 ] && [ "$TIER" = thorough ] && { [ "$ID" = C08 ] || [ "$ID" = C13 ]; }; then
-  tools/fuzz_layer.sh "$ID" "${VP_FUZZ_RUNS:-40000}" "${VERIF_SEED:-0}"
+  tools/fuzz_layer.sh "$ID" "${VP_FUZZ_RUNS:-100000}" "${VERIF_SEED:-0}"
   fcode=$?
   case "$fcode" in
     1) code=1 ;;
